@@ -1,6 +1,6 @@
 SPECIFICATION Spec
-CONSTANTS Agents = {"a1","a2"}
- NSteps = 2
+CONSTANTS Agents = {"a1","a2","a3"}
+ NSteps = 1
  AllowCrash = FALSE
  FixStatus = TRUE
  ExclusiveBind = TRUE
